@@ -250,6 +250,10 @@ def scan_over_neutral(ap, f, a, b):
     def formally():
         return scan_over(ap, f, _join(a, b))
 
+    if is_empty(b):
+        # The text does not spell this case out.  "f\\a,b" gives [a]; "\\ is like /" with "a f/[] --> a" gives the bare a,
+        # which is also what the language's own test suite expects (5{(,x),y}\\[] --> 5): either is accepted.
+        return _alts([written_out(), a] + ([formally()] if is_seq(a) else []))
     if not is_seq(a) and b[0] == 'l':
         return written_out()
     return _readings([written_out, formally])
@@ -264,6 +268,10 @@ def iterate(ap, f, n, a):
 
 def scan_iterating(ap, f, n, a):
     """n f\\*a: like Iterate, collecting intermediate results; 3{1,x}\\*[] --> [[] [1] [1 1] [1 1 1]]."""
+    if n == 0:
+        # not spelled out by the text: the list of intermediate results [a], or - "like its non-scanning counterpart",
+        # and as the language's own test suite expects (0,\\*1 --> 1) - the bare a: either is accepted
+        return _alts([L(a), a])
     out = [a]
     for _ in range(n):
         a = call(ap, f, a)
@@ -594,6 +602,41 @@ EXAMPLES = [
     (',/\\~[1 [2 [3 [4] 5] 6] 7]', ('over', 'scan-converging'), ('op', ','), None, [1, [2, [3, [4], 5], 6], 7],
      [[1, [2, [3, [4], 5], 6], 7], [1, 2, [3, [4], 5], 6, 7], [1, 2, 3, [4], 5, 6, 7], [1, 2, 3, 4, 5, 6, 7]]),
     ('{(x+2%x)%2}:~2', 'converge', ('fn', '{(x+2%x)%2}'), None, 2, 1.4142135623730951),
+    # special cases as the language's own test suite has them (tests/kgtests/language/test_suite.kg)
+    ('#\'""', 'each', ('op', '#'), None, '', ''),
+    ('"tst",\'"foo"', 'each2', ('op', ','), 'tst', 'foo', ['tf', 'so', 'to']),
+    ('0,:\\[]', 'each-left', ('op', ','), 0, [], []),
+    (',:\'[1]', 'each-pair', ('op', ','), None, [1], [1]),
+    (',:\'"x"', 'each-pair', ('op', ','), None, 'x', 'x'),
+    (',:\'"test"', 'each-pair', ('op', ','), None, 'test', ['te', 'es', 'st']),
+    (',/[1]', 'over', ('op', ','), None, [1], 1),
+    (',/"a"', 'over', ('op', ','), None, 'a', C('a')),
+    (',/"abc"', 'over', ('op', ','), None, 'abc', 'abc'),
+    ('1,/2', 'over-neutral', ('op', ','), 1, 2, [1, 2]),
+    ('[],/[1 2]', 'over-neutral', ('op', ','), [], [1, 2], [1, 2]),
+    ('0c0,/""', 'over-neutral', ('op', ','), C('0'), '', C('0')),
+    ('0c0,/"abc"', 'over-neutral', ('op', ','), C('0'), 'abc', '0abc'),
+    (',\\[]', 'scan-over', ('op', ','), None, [], []),
+    (',\\[1]', 'scan-over', ('op', ','), None, [1], [1]),
+    (',\\"a"', 'scan-over', ('op', ','), None, 'a', [C('a')]),
+    (',\\"abc"', 'scan-over', ('op', ','), None, 'abc', [C('a'), 'ab', 'abc']),
+    ('1,\\2', 'scan-over-neutral', ('op', ','), 1, 2, [1, [1, 2]]),
+    ('[],\\[]', 'scan-over-neutral', ('op', ','), [], [], []),
+    ('[],\\[1 2]', 'scan-over-neutral', ('op', ','), [], [1, 2], [[], [1], [1, 2]]),
+    ('4+\\[1 2 3]', 'scan-over-neutral', ('op', '+'), 4, [1, 2, 3], [4, 5, 7, 10]),
+    ('0,:*1', 'iterate', ('op', ','), 0, 1, 1),
+    ('2,:*1', 'iterate', ('op', ','), 2, 1, [[1]]),
+    ('0,\\*1', 'scan-iterating', ('op', ','), 0, 1, 1),
+    ('2,\\*1', 'scan-iterating', ('op', ','), 2, 1, [1, [1], [[1]]]),
+    ('0{1,x}\\*[]', 'scan-iterating', ('fn', '{1,x}'), 0, [], []),
+    (',/:~[[[[[0]]]]]', ('over', 'converge'), ('op', ','), None, [[[[[0]]]]], 0),
+    (',/\\~[]', ('over', 'scan-converging'), ('op', ','), None, [], [[]]),
+    (',/\\~[1]', ('over', 'scan-converging'), ('op', ','), None, [1], [[1], 1]),
+    (',/\\~[[[0]]]', ('over', 'scan-converging'), ('op', ','), None, [[[0]]], [[[[0]]], [[0]], [0], 0]),
+    ('{_x%2}\\~1', 'scan-converging', ('fn', '{_x%2}'), None, 1, [1, 0]),
+    ('{(#x)<5}{1,x}\\~1', 'scan-while', ('fn', '{1,x}'), ('fn', '{(#x)<5}'), 1, [1, [1, 1], [1, 1, 1], [1, 1, 1, 1]]),
+    ('{x<0}{x+1}\\~0', 'scan-while', ('fn', '{x+1}'), ('fn', '{x<0}'), 0, []),
+    ('{(#x)<5}{x,x}:~[1 2 3 4 5]', 'while', ('fn', '{x,x}'), ('fn', '{(#x)<5}'), [1, 2, 3, 4, 5], [1, 2, 3, 4, 5]),
 ]
 
 
@@ -601,10 +644,8 @@ def selfcheck():
     bad = []
     for text, form, f, left, a, want in EXAMPLES:
         a = _P(a)
-        if isinstance(left, (int, list)):
-            left_c = left if FORMS.get(form, (0, 0, None))[2] == 'count' else _P(left)
-        else:
-            left_c = left
+        lk = None if isinstance(form, tuple) else FORMS[form][2]
+        left_c = _P(left) if lk == 'value' else left
         try:
             if isinstance(form, tuple):
                 got = expand_chain(form[0], form[1], _ref_ap, _ref_match, f, a)
